@@ -15,7 +15,9 @@ METRICS = ["tp", "tn", "fp", "fn", "p", "n", "top", "ton", "pop", "tpr", "tnr", 
            "frr", "trr", "far", "topr", "tonr", "acceptance_rate", "rejection_rate", "ppv", "npv",
            "fdr", "for_", "accuracy", "error_rate", "class_accuracy", "class_error_rate"]
 RATE_METRICS = ["fnr", "fpr", "tpr", "tnr", "ppv", "npv", "accuracy", "topr", "fdr"]
-ALPHABET = ["a", "b", "zz", "a_b", "b_c", "c", "_", "x_", "Q r", "é", "a_", "B"]
+ALPHABET = ["a", "b", "zz", "a_b", "b_c", "c", "_", "x_", "Q r", "\u00e9", "a_", "B",
+            # different strings that look alike (canonically equivalent Unicode, different case, padding)
+            "e\u0301", "Jos\u00e9", "Jose\u0301", "\u00c5", "\u212b", "b ", " b", "A", ""]
 POS_LABELS = [(1, 0), (0, 1), ("yes", "no"), (7, 3)]
 CI_METHODS = ["quantile", "bc", "bca"]
 
@@ -43,6 +45,7 @@ def _frames(draw, max_rows=14, distinct_scores=False, min_per_class=0):
     return dict(ncols=ncols, keys=[list(k) for k in keys], assign=list(assign), lab=lab, scores=scores,
                 pl=pl, sc=sc, ec=ec, index_seed=draw(st.integers(0, 10**6)),
                 frame_cols_reversed=draw(st.booleans()), index_offset=draw(st.sampled_from([100, 0, 0])),
+                index_name=draw(st.sampled_from([None, None, "g1", "g2", "y", "s", "junk"])),
                 # rows with missing values in columns the call never reads
                 gaps=draw(st.one_of(st.none(), st.lists(st.booleans(), min_size=n, max_size=n))),
                 score_dtype=draw(st.sampled_from(["float", "float", "float", "uint8", "float32"])))
@@ -83,6 +86,8 @@ def build_frame(fr):
         data["s"] = fr["scores"]
     idx = np.random.RandomState(fr["index_seed"]).permutation(n) + fr.get("index_offset", 100)  # offset 0: labels are a permutation of the positions
     df = pd.DataFrame(data, index=idx)
+    if fr.get("index_name"):
+        df.index.name = fr["index_name"]  # a row index that happens to be named like a column
     group_columns = names if fr["ncols"] > 1 else names[0]
     return df, group_columns, pos_l
 
@@ -388,4 +393,4 @@ PROP = Prop(
                  "row order of the result is not claimed, rows are matched by label"],
 )
 
-RULE_EXTRA = ('unused columns with missing values (NaN / None) in some rows; group columns held by the frame in reversed order; uint8 / float32 score columns.')
+RULE_EXTRA = ('group values that differ only by Unicode normal form, case or padding, and the empty string; a row index named like one of the columns; unused columns with missing values (NaN / None) in some rows; group columns held by the frame in reversed order; uint8 / float32 score columns.')
